@@ -465,6 +465,10 @@ EXTRA = [
     ('MAKE_MOCKn arity disagrees with the signature', 'MAKE_MOCK2(f, int(int));', '', 'Function signature does not have 2 parameters', 'c++14'),
     ('inverted TIMES bounds', 'MAKE_MOCK1(f, void(int));', 'REQUIRE_CALL(m, f(trompeloeil::_)).TIMES(3, 2);', 'In TIMES the first value must not exceed the second', 'c++14'),
     ('moving a non-movable mock', 'MAKE_MOCK1(f, void(int));', 'auto m2 = std::move(m); (void)m2;', 'By default, mock objects are not movable', 'c++14'),
+    ('empty RETURN() on a void function', 'MAKE_MOCK1(f, void(int));', 'REQUIRE_CALL(m, f(trompeloeil::_)).RETURN();', 'RETURN does not make sense for void-function', 'c++14'),
+    ('MAKE_MOCKn arity smaller than the signature', 'MAKE_MOCK1(f, void(int, int));', '', 'Function signature does not have 1 parameters', 'c++14'),
+    ('MAKE_CONST_MOCK0 on a one-parameter signature', 'MAKE_CONST_MOCK0(f, int(int));', '', 'Function signature does not have 0 parameters', 'c++14'),
+    ('deathwatched on a polymorphic type with a non-virtual destructor', 'MAKE_MOCK1(f, void(int));', 'struct P { virtual void g() {} ~P() {} }; auto* pw = new trompeloeil::deathwatched<P>(); (void)pw;', 'virtual destructor is a necessity for deathwatched to work', 'c++14'),
 ]
 LEGAL = [
     ('every clause kind, LR_ forms, sequence and interval on a value function', 'MAKE_MOCK2(f, int(int, int));',
@@ -474,6 +478,12 @@ LEGAL = [
     ('FORBID_CALL with WITH only; NAMED_ forms', 'MAKE_MOCK1(f, int(int));', 'FORBID_CALL(m, f(trompeloeil::_)).WITH(_1 < 0); auto e = NAMED_ALLOW_CALL(m, f(trompeloeil::_)).RETURN(0); auto e2 = NAMED_REQUIRE_CALL(m, f(2)).TIMES(AT_MOST(3)).LR_RETURN(gi); (void)e; (void)e2;'),
     ('IN_SEQUENCE followed by an interval with lower bound 0', 'MAKE_MOCK1(f, void(int));', 'REQUIRE_CALL(m, f(trompeloeil::_)).IN_SEQUENCE(gseq).TIMES(AT_MOST(2)); REQUIRE_CALL(m, f(1)).IN_SEQUENCE(gseq).TIMES(0, 3); REQUIRE_CALL(m, f(2)).IN_SEQUENCE(gseq).TIMES(AT_LEAST(0));'),
     ('reference return and pointer return', 'MAKE_MOCK1(f, int&(int));', 'REQUIRE_CALL(m, f(trompeloeil::_)).LR_RETURN(gi); REQUIRE_CALL(m, f(1)).LR_RETURN(std::ref(gi));'),
+    # the long-macro configuration: every prefixed macro must work on its own (the short names do not exist)
+    ('LONG_MACROS: every prefixed expectation macro and clause', 'TROMPELOEIL_MAKE_MOCK1(f, int(int));\n  TROMPELOEIL_MAKE_CONST_MOCK1(c, void(int));',  # one MAKE_MOCK per source line
+     'int loc = 0; TROMPELOEIL_REQUIRE_CALL(m, f(trompeloeil::_)).TROMPELOEIL_WITH(_1 > 0).TROMPELOEIL_LR_WITH(_1 > loc).TROMPELOEIL_IN_SEQUENCE(gseq).TROMPELOEIL_TIMES(TROMPELOEIL_AT_LEAST(1)).TROMPELOEIL_SIDE_EFFECT(++gi).TROMPELOEIL_LR_SIDE_EFFECT(++loc).TROMPELOEIL_RETURN(1);'
+     ' TROMPELOEIL_ALLOW_CALL(m, f(1)).TROMPELOEIL_LR_RETURN(loc); TROMPELOEIL_FORBID_CALL(m, f(2)); TROMPELOEIL_REQUIRE_CALL(m, c(1)).TROMPELOEIL_RT_TIMES(1, 2).TROMPELOEIL_THROW(1); TROMPELOEIL_REQUIRE_CALL(m, c(2)).TROMPELOEIL_TIMES(TROMPELOEIL_AT_MOST(2)).TROMPELOEIL_LR_THROW(loc);'
+     ' auto e1 = TROMPELOEIL_NAMED_REQUIRE_CALL(m, f(3)).TROMPELOEIL_RETURN(0); auto e2 = TROMPELOEIL_NAMED_ALLOW_CALL(m, f(4)).TROMPELOEIL_RETURN(0); auto e3 = TROMPELOEIL_NAMED_FORBID_CALL(m, f(5)); (void)e1; (void)e2; (void)e3;'
+     ' struct DW { virtual ~DW() = default; }; auto* dw = new trompeloeil::deathwatched<DW>(); TROMPELOEIL_REQUIRE_DESTRUCTION(*dw); auto e4 = TROMPELOEIL_NAMED_REQUIRE_DESTRUCTION(*dw).TROMPELOEIL_IN_SEQUENCE(gseq); (void)e4; delete dw;', 'TROMPELOEIL_LONG_MACROS'),
 ]
 
 
@@ -486,8 +496,10 @@ def extras(args):
     for i, (desc, mock, body, want, std) in enumerate(EXTRA):
         src = pre + 'struct MX { %s };\nvoid probe(MX& m) { (void)m; %s }\n' % (mock, body)
         jobs.append((desc, src, want))
-    for i, (desc, mock, body) in enumerate(LEGAL):
-        src = pre + 'struct MX { %s };\nvoid probe(MX& m) { (void)m; %s }\n' % (mock, body)
+    for i, legal in enumerate(LEGAL):
+        desc, mock, body = legal[:3]
+        define = ('#define %s\n' % legal[3]) if len(legal) > 3 else ''
+        src = define + pre + 'struct MX { %s };\nvoid probe(MX& m) { (void)m; %s }\n' % (mock, body)
         jobs.append((desc, src, None))
 
     def one(job):
